@@ -12,14 +12,41 @@ use std::io::Write;
 const LEXEMES: &[&str] = &[
     "PRINT", "print", "GO", "TO", "GOTO", "GOSUB", "IF", "THEN", "ELSE", "FOR", "NEXT", "STEP", "OR", "AND", "NOT",
     "LET", "DIM", "DEF", "END", "STOP", "READ", "RESTORE", "RETURN", "INPUT", "REM", "DATA", "rem", "data",
-    "SC", "E", "x", "Y1", "A$", "TOTAL", "0", "1", "5", "25", ".", ".5", "\"", "\"hi\"", "<", ">", "=", "<=", "<>",
+    "\"\"", "\"\",", "SC", "E", "x", "Y1", "A$", "TOTAL", "0", "1", "5", "25", ".", ".5", "\"", "\"hi\"", "<", ">", "=", "<=", "<>",
     ":", ",", ";", "$", " ", "  ", "\t", "+", "-", "*", "/", "^", "(", ")", "?", "é", "日", "%", "😊",
 ];
+
+/// Numerals of hundreds of digits: around the largest finite f64 (2^1024 - 2^970 is the
+/// least integer that rounds to infinity), far beyond it, and far below the smallest.
+pub fn long_numerals() -> Vec<String> {
+    const LIMIT: &str = "179769313486231580793728971405303415079934132710037826936173778980444968292764750946649017977587207096330286416692887910946555547851940402630657488671505820681908902000708383676273854845817711531764475730270069855571366959622842914819860834936475292719074168444365510704342711559699508093042880177904174497792";
+    let below = format!("{}1", &LIMIT[..LIMIT.len() - 1]); // LIMIT - 1
+    vec![
+        LIMIT.to_string(),
+        below,
+        "9".repeat(309),
+        "9".repeat(308),
+        format!("1{}", "0".repeat(308)),
+        format!("1{}", "0".repeat(309)),
+        format!("000{}", "7".repeat(400)),
+        format!("{}.5", "9".repeat(309)),
+        format!("0.{}1", "0".repeat(340)),
+        format!(".{}1", "0".repeat(340)),
+        "123456789".repeat(30),
+        format!("0.{}", "123456789".repeat(30)),
+    ]
+}
 
 pub fn random_line(rng: &mut StdRng) -> String {
     let n = rng.gen_range(1..=9);
     let mut s = String::new();
-    for _ in 0..n {
+    let long = if rng.gen_bool(0.04) { Some(rng.gen_range(0..n)) } else { None };
+    for i in 0..n {
+        if long == Some(i) {
+            let xs = long_numerals();
+            s.push_str(&xs[rng.gen_range(0..xs.len())]);
+            continue;
+        }
         s.push_str(LEXEMES[rng.gen_range(0..LEXEMES.len())]);
         if rng.gen_bool(0.25) {
             s.push(' ');
